@@ -22,6 +22,13 @@ direction is a refuting event too (the statement promises a proto).  The ONNX ba
 repository's ``testdata`` models - which the repository's own round-trip test passes - run through
 the same comparator as a standing false-alarm audit of ``canon``.
 
+For models below IR 10 the main-graph ``value_info`` entries named ``{domain}::{function}/{value}`` that describe a
+value of a model-local function (where function value info lives before IR 10) are compared as a multiset of
+their own (``canon`` N4 would drop them as naming nothing in the main graph): signature
+``GraphProto.value_info{domain::function/value of an IR<10 model}|<lost|added|duplicated>`` for a whole entry, the
+usual field signature for a difference inside one.  Functions / graphs of degenerate arity (no inputs, no nodes,
+no outputs, no attributes) are a fixed stratum of the case plan.
+
 Signature = ``<message type owning the differing field>.<field>|<lost|added|duplicated|altered>``
 (``TensorProto.external_data{location|offset|length}.value|...`` for an entry of a tensor's storage description;
 ``idempotence:`` prefix for the second trip, ``exception:<direction>|<type>@<raising function>``).
@@ -73,7 +80,13 @@ RULE = (
     "metadata or only a type; name-only graph inputs/outputs; a type with only a denotation, only a rank-0 shape or "
     "one dimension that has only a denotation; a wrapper type with the denotation on one level only; an unnamed "
     "scalar tensor; zero-valued attributes; a node with only an operator and an output; a graph without nodes; "
-    "a model with only a graph), nested sparse carriers going through the same per-site draw"
+    "a model with only a graph), nested sparse carriers going through the same per-site draw; "
+    "fn_value_info_pre10 (IR 8..9 models with functions): main-graph value_info entries '{domain}::{function}/{value}' "
+    "for inputs and top-level node outputs of model-local functions (the pre-IR-10 place of function value info) - "
+    "judged by an own clause: the multiset of these entries must come back unchanged; degenerate_arity (35% of "
+    "cases): full-featured functions with no input / no node / no output / none of them / no attribute, graphs "
+    "with no input / no node / no output, nodes with no output (and no input); every 17th generated case is a fixed "
+    "stratum: IR 8/9 model, functions, both features forced"
 )
 ASSUMPTIONS = [
     "protobuf reflection (descriptors, HasField, ListFields semantics) and onnx's generated message classes are trusted",
@@ -98,6 +111,12 @@ ASSUMPTIONS = [
     "the location of an external tensor is an opaque string of the proto: every relative spelling that stays inside "
     "the model directory is well-formed, whether or not a path library would rewrite it (no file is opened: external "
     "tensors go through the in-memory entry points only)",
+    "below IR 10 a main-graph value_info entry named '{domain}::{function}/{value}' whose function (no overload) is in "
+    "the model, whose value is an input or top-level node output of it and which names no value of the main graph is "
+    "REFERENCED (serde documents the spelling as the function's value info): it is not 'unreferenced value-info' and "
+    "must come back; value names containing '/' get no such entry (the spelling would be ambiguous)",
+    "functions / graphs without inputs, nodes or outputs and nodes without outputs are well-formed protos (every one of "
+    "these lists is 'repeated', none has a minimum length in onnx.proto)",
     "witnesses are shrunk by removing repeated elements / doc strings while the same signature persists; the "
     "unshrunk generated proto is kept in the replay file",
 ]
@@ -131,8 +150,17 @@ KEY_FEATURES = (
     "sparse:type_wrapper:element_denotation", "sparse:tensor:nothing", "sparse:tensor:dims",
     "sparse:tensor:doc_string", "sparse:tensor:metadata_props", "sparse:graph_body:no_node",
     "sparse:graph:value_info", "sparse:function:value_info",
+    # function value info parked in the main graph below IR 10; carriers of degenerate arity
+    "fn_value_info_pre10", "fn_value_info_pre10:input", "fn_value_info_pre10:node_output",
+    "fn_value_info_pre10:function_without_inputs", "fn_value_info_pre10:function_with_inputs",
+    "fn_value_info_pre10:function_without_outputs", "fn_value_info_pre10:function_with_outputs",
+    "degenerate_arity", "degenerate:function:no_input", "degenerate:function:no_node", "degenerate:function:no_output",
+    "degenerate:function:no_input_no_output", "degenerate:function:nothing", "degenerate:function:no_input:no_attribute",
+    "degenerate:graph:no_input", "degenerate:graph:no_node", "degenerate:graph:no_output",
+    "degenerate:graph:no_input_no_output", "degenerate:node:no_output", "degenerate:node:no_input_no_output",
 )
 MAX_DIFFS_PER_TRIP = 8
+ARITY_STRATUM = 17  # every 17th generated case (coprime with the 16 round-robin shards) is the pre-IR-10 function value info / degenerate arity stratum
 
 
 def plan(tier: str) -> dict:
@@ -151,6 +179,9 @@ def plan(tier: str) -> dict:
             floors[f"feat:{f}"] = 15 if quick else 500
     for v in range(3, 14):
         floors[f"ir_version:{v}"] = 20 if quick else 800
+    floors["stratum:pre10_function_value_info+degenerate_arity"] = 1000 if quick else 30000
+    floors["function_entries_compared"] = 1500 if quick else 45000
+    floors["idempotence:function_entries_compared"] = 1500 if quick else 45000
     return {
         "cases": 64000 if quick else 1600000,
         "shards": 16,
@@ -291,6 +322,7 @@ def judge(proto, kind: str, api: str, tmpdir: str | None, count: Callable[[str, 
     count = count or (lambda k, n=1: None)
     events: list[tuple[str, str]] = []
     ca = cp.canon(proto)  # before the library sees (and possibly aliases) the message
+    fa = _function_entries(proto, kind)
     try:
         p1 = _trip(proto, kind, api, tmpdir, "a")
     except _Raised as r:
@@ -305,6 +337,8 @@ def judge(proto, kind: str, api: str, tmpdir: str | None, count: Callable[[str, 
     count("roundtrips_compared", 1)
     c1 = cp.canon(p1)
     events += _compare(ca, c1, proto, p1, "", count)
+    f1 = _function_entries(p1, kind)
+    events += _compare_function_entries(fa, f1, "", count)
     try:
         p2 = _trip(p1, kind, api, tmpdir, "b")
     except _Raised as r:
@@ -315,7 +349,42 @@ def judge(proto, kind: str, api: str, tmpdir: str | None, count: Callable[[str, 
         return events
     count("idempotence_compared", 1)
     events += _compare(c1, cp.canon(p2), p1, p2, "idempotence:", count)
+    events += _compare_function_entries(f1, _function_entries(p2, kind), "idempotence:", count)
     return events
+
+
+_FUNCTION_ENTRY = "GraphProto.value_info{domain::function/value of an IR<10 model}"
+
+
+def _function_entries(proto, kind: str):
+    """Canonical multiset of the main-graph value_info entries that describe values of model-local
+    functions (IR < 10: ``{domain}::{function}/{value}``, see gen_proto_c02).  canon N4 drops them from the
+    main comparison as naming nothing in the main graph; they are referenced - by the function - so
+    they are judged here: none lost, added, duplicated or altered."""
+    if kind != "ModelProto":
+        return None
+    items = [cp.canon(v) for v in gx.entries_for_functions(proto)]
+    out = {"__msg__": "GraphProto"}
+    if items:
+        out["value_info"] = cp.Multiset(items, "name")
+    return out
+
+
+def _compare_function_entries(fa, fb, prefix: str, count) -> list[tuple[str, str]]:
+    if fa is None or fb is None or (len(fa) == 1 and len(fb) == 1):
+        return []
+    count(f"{prefix}function_entries_compared", len(fa.get("value_info", ())))
+    out = []
+    seen = set()
+    for d in cp.differences(fa, fb, limit=MAX_DIFFS_PER_TRIP):
+        whole = d.owner == "GraphProto" and d.field == "value_info"
+        sig = prefix + (f"{_FUNCTION_ENTRY}|{d.kind}" if whole else d.signature())
+        if sig in seen:
+            continue
+        seen.add(sig)
+        out.append((sig, f"graph.{d.path} (value info of a function value, parked in the main graph below IR 10): "
+                         f"{cp.brief(d.a)}  ->  {cp.brief(d.b)}   [{d.kind}]"))
+    return out
 
 
 def _compare(ca, cb, pa, pb, prefix: str, count) -> list[tuple[str, str]]:
@@ -503,8 +572,16 @@ def _run(ctx, tmpdir: str) -> None:
             kind, api, origin = "ModelProto", rng.choice(APIS), f"corpus:{os.path.basename(os.path.dirname(path))}/{os.path.basename(path)}"
             ctx.count("corpus_models_compared")
         else:
-            kind = _draw_kind(rng)
-            gen = gx.ProtoGenC02(rng)
+            if case % ARITY_STRATUM == ARITY_STRATUM - 1:
+                # fixed stratum: an IR 8/9 model with functions whose value info is parked in the main
+                # graph, functions / graphs of degenerate arity (no inputs, no nodes, no outputs)
+                kind = "ModelProto"
+                gen = gx.ProtoGenC02(rng, ir_version=rng.choice((8, 9)), force={"functions"},
+                                     extra_force={"fn_value_info_pre10", "degenerate_arity"})
+                ctx.count("stratum:pre10_function_value_info+degenerate_arity")
+            else:
+                kind = _draw_kind(rng)
+                gen = gx.ProtoGenC02(rng)
             proto = gen.build(kind)
             used, carriers = gen.used, gen.carriers
             report_only = gen.report_only
